@@ -25,7 +25,7 @@ Step(rec) == hist' = IF CFG.record THEN Append(hist, rec) ELSE hist
 MCInit == Init /\ hist = << >>
 
 \* stray MPC messages pass the driver's command gate without being parked
-MsgCmd(a) == CmdGate(a) /\ Head(cmdq[a]).t \in {"MsgBad", "MsgEarly"}
+MsgCmd(a) == CmdGate(a) /\ Head(cmdq[a]).t \in {"MsgBad", "MsgEarly", "MsgSelf"}
 MCAuto == \E a \in A : MsgCmd(a) /\ DoCmd(a) /\ UNCHANGED hist
 
 MCGate ==
